@@ -104,6 +104,7 @@ class Tank(PoupoolActor):
         if self.__machine.get_time_in_state() > datetime.timedelta(hours=2):
             logger.warning("Tank TOO LONG in fill state, stopping")
             self.get_actor("Filtration").halt.defer()
+            self._proxy.halt.defer()
             return
         height = self.__get_tank_height()
         if height > self.levels_too_low:
@@ -122,6 +123,7 @@ class Tank(PoupoolActor):
         if self.__machine.get_time_in_state() > datetime.timedelta(hours=6):
             logger.warning("Tank TOO LONG in low state, stopping")
             self.get_actor("Filtration").halt.defer()
+            self._proxy.halt.defer()
             return
         height = self.__get_tank_height()
         if height >= self.levels["low"] + self.hysteresis:
@@ -130,6 +132,7 @@ class Tank(PoupoolActor):
         if height < self.levels_too_low:
             logger.warning(f"Tank TOO LOW, stopping: {height}")
             self.get_actor("Filtration").halt.defer()
+            self._proxy.halt.defer()
             return
         self.do_delay(self.STATE_REFRESH_DELAY / 2, self.do_repeat_low.__name__)
 
